@@ -95,35 +95,53 @@ Definition check_transfer (x : xfer) (modc ok : bool) (dto dfrom : Z) (ga : opti
    else []).
 
 (** *** a sequence of uses of one grant *)
-Fixpoint check_seq (i : N) (g0 : grant) (s : gstate) (totals : coins) (steps : list step_obs)
-  : list string :=
+
+(** The property on the observations alone (no model involved): running totals of what arrived,
+    per denom, against the ORIGINAL limit; recipients against the ORIGINAL allow list.  Reports the
+    first step that breaks it. *)
+Fixpoint seq_prop (i : N) (g0 : grant) (totals : coins) (steps : list step_obs) : list string :=
+  match steps with
+  | [] => []
+  | o :: r =>
+      let m := so_msg o in
+      let d := m_denom m in
+      let totals' := set_amt d (amount_of d totals + so_to_delta o) totals in
+      let tags :=
+        tag (Z.leb (amount_of d totals') (amount_of d (g_limit g0))) "prop:total_moved_exceeds_granted_limit" ++
+        tag (negb (so_ok o || negb (Z.eqb (so_to_delta o) 0)) || is_nil (g_allow g0) || mem (m_to m) (g_allow g0))
+            "prop:recipient_not_on_allow_list" in
+      match tags with
+      | [] => seq_prop (N.succ i) g0 totals' r
+      | e => map (fun t => (t ++ " @step " ++ N_to_string i)%string) e
+      end
+  end.
+
+(** Model against implementation, step by step; reports the first step that disagrees. *)
+Fixpoint seq_corr (i : N) (s : gstate) (steps : list step_obs) : list string :=
   match steps with
   | [] => []
   | o :: r =>
       let m := so_msg o in
       let '(s', ok) := use s m in
-      let d := m_denom m in
-      let totals' := set_amt d (amount_of d totals + so_to_delta o) totals in
       let tags :=
         tag (Bool.eqb (so_ok o) ok) "corr:use_accepted" ++
         tag (ogrant_eqb (so_grant o) (gs_grant s')) "corr:stored_grant" ++
         tag (Z.eqb (so_to_delta o) (if ok then m_amt m else 0) &&
-             Z.eqb (so_from_delta o) (if ok then m_amt m else 0)) "corr:use_balances" ++
-        (* the property, on the observation alone *)
-        tag (Z.leb (amount_of d totals') (amount_of d (g_limit g0))) "prop:total_moved_exceeds_granted_limit" ++
-        tag (negb (so_ok o || negb (Z.eqb (so_to_delta o) 0)) || is_nil (g_allow g0) || mem (m_to m) (g_allow g0))
-            "prop:recipient_not_on_allow_list" in
+             Z.eqb (so_from_delta o) (if ok then m_amt m else 0)) "corr:use_balances" in
       match tags with
-      | [] => check_seq (N.succ i) g0 s' totals' r
+      | [] => seq_corr (N.succ i) s' r
       | e => map (fun t => (t ++ " @step " ++ N_to_string i)%string) e
       end
   end.
+
+Definition check_seq (g0 : grant) (bal0 : coins) (steps : list step_obs) : list string :=
+  seq_corr 0%N {| gs_grant := Some g0; gs_bal := bal0 |} steps ++ seq_prop 0%N g0 [] steps.
 
 Definition check (c : case) : list string :=
   match c with
   | CAccess c o ok after => check_access c o ok after
   | CTransfer x modc ok dto dfrom ga => check_transfer x modc ok dto dfrom ga
-  | CSeq _ g0 bal0 steps => check_seq 0%N g0 {| gs_grant := Some g0; gs_bal := bal0 |} [] steps
+  | CSeq _ g0 bal0 steps => check_seq g0 bal0 steps
   end.
 
 Definition check_all := check_list check.
